@@ -172,3 +172,12 @@ theories/Qcow2/QcowProofs.vos theories/Qcow2/QcowProofs.vok theories/Qcow2/QcowP
 theories/Properties_C19.vo theories/Properties_C19.glob theories/Properties_C19.v.beautified theories/Properties_C19.required_vo: theories/Properties_C19.v theories/Qcow2/QcowIndex.vo theories/Qcow2/QcowProofs.vo
 theories/Properties_C19.vio: theories/Properties_C19.v theories/Qcow2/QcowIndex.vio theories/Qcow2/QcowProofs.vio
 theories/Properties_C19.vos theories/Properties_C19.vok theories/Properties_C19.required_vos: theories/Properties_C19.v theories/Qcow2/QcowIndex.vos theories/Qcow2/QcowProofs.vos
+theories/Xattr/XattrPack.vo theories/Xattr/XattrPack.glob theories/Xattr/XattrPack.v.beautified theories/Xattr/XattrPack.required_vo: theories/Xattr/XattrPack.v 
+theories/Xattr/XattrPack.vio: theories/Xattr/XattrPack.v 
+theories/Xattr/XattrPack.vos theories/Xattr/XattrPack.vok theories/Xattr/XattrPack.required_vos: theories/Xattr/XattrPack.v 
+theories/Xattr/XattrProofs.vo theories/Xattr/XattrProofs.glob theories/Xattr/XattrProofs.v.beautified theories/Xattr/XattrProofs.required_vo: theories/Xattr/XattrProofs.v theories/Xattr/XattrPack.vo
+theories/Xattr/XattrProofs.vio: theories/Xattr/XattrProofs.v theories/Xattr/XattrPack.vio
+theories/Xattr/XattrProofs.vos theories/Xattr/XattrProofs.vok theories/Xattr/XattrProofs.required_vos: theories/Xattr/XattrProofs.v theories/Xattr/XattrPack.vos
+theories/Properties_C15.vo theories/Properties_C15.glob theories/Properties_C15.v.beautified theories/Properties_C15.required_vo: theories/Properties_C15.v theories/Xattr/XattrPack.vo theories/Xattr/XattrProofs.vo
+theories/Properties_C15.vio: theories/Properties_C15.v theories/Xattr/XattrPack.vio theories/Xattr/XattrProofs.vio
+theories/Properties_C15.vos theories/Properties_C15.vok theories/Properties_C15.required_vos: theories/Properties_C15.v theories/Xattr/XattrPack.vos theories/Xattr/XattrProofs.vos
